@@ -112,7 +112,7 @@ def make_pyvis_net(
     # index of each member vertex, by identity, for fast lookup later on
     index = {}
     for i, vert in enumerate(verts):
-        if rvfunc:
+        if rvfunc is not None:
             net.add_node(i, label=rvfunc(vert))
         else:
             net.add_node(i, label=hex(id(vert)))
@@ -142,7 +142,7 @@ def make_pyvis_net(
             net.directed = issubclass(type(edge), DirectedEdge)
 
             try:
-                if refunc:
+                if refunc is not None:
                     net.add_edge(i, j, title=refunc(edge))
                 else:
                     net.add_edge(i, j)
